@@ -38,6 +38,9 @@ func init() {
 			{ID: "R18b", Floor: 3, Doc: "create wiring: version switch, Finalize before ReplaceRootsInFile, root provenance, placeholder shape", Run: ruleR18b},
 			{ID: "R18c", Floor: 1, Doc: "stdin read storage: Get does not mutate the block map", Run: ruleR18c},
 			{ID: "R18d", Floor: 4, Doc: "sanitiser root = EvalSymlinks(output dir) (= R17b)", Run: ruleR17b},
+			{ID: "R18g", Floor: 1, Doc: "create: every committed block reaches the blockstore — the committer puts on every success path, or what it defers is flushed on every success return of writeFiles", Run: ruleR18g},
+			{ID: "R18h", Floor: 1, Doc: "extract: an entry name is judged by resolvePath only — no other condition on the name decides whether an entry is extracted (names that merely look unusual, like `a..b`, must round-trip)", Run: ruleR18h},
+			{ID: "R18i", Floor: 1, Doc: "extract: file content is copied into the created file itself (or a repository writer whose Write forwards every byte it claims to have written)", Run: ruleR18i},
 			{ID: "R18f", Floor: 1, Doc: "the extractor never removes, renames or truncates what it created", Run: ruleR18f},
 			{ID: "R18e", Floor: 1, Doc: "symlink target verbatim", Run: ruleR18e},
 		},
@@ -170,7 +173,7 @@ func ruleR18a(c *Ctx, r *Report) {
 			}
 			cl, _ := callOf(canon(bo.X))
 			if cl != nil && calleeFunc(cl.Common()) != nil && calleeFunc(cl.Common()).Name() == "Int" {
-				falseEdges = append(falseEdges, Edge{b, 0}) // cut the true edges
+				falseEdges = append(falseEdges, Edge{From: b, Succ: 0}) // cut the true edges
 			}
 		}
 		bad := "type switch not found"
@@ -357,4 +360,269 @@ func ruleR18f(c *Ctx, r *Report) {
 		})
 	}
 	r.Check(bad == "", key, "-", fmt.Sprintf("no os.Remove/RemoveAll/Rename/Truncate in %d extraction functions", len(scope)), bad)
+}
+
+func callsPut(c *Ctx, fn *ssa.Function, depth int) bool {
+	if fn == nil || depth > 2 {
+		return false
+	}
+	found := false
+	eachInstr(fn, func(in ssa.Instruction) {
+		ci, ok := in.(ssa.CallInstruction)
+		if !ok {
+			return
+		}
+		f := calleeFunc(ci.Common())
+		if funcIs(f, pkgBS, "ReadWrite", "Put") || funcIs(f, pkgBS, "ReadWrite", "PutMany") {
+			found = true
+		}
+	})
+	return found
+}
+
+// putCallBlocks: blocks of fn that put (directly or by calling a closure/function that puts).
+func putCallBlocks(c *Ctx, fn *ssa.Function) map[*ssa.BasicBlock]bool {
+	out := map[*ssa.BasicBlock]bool{}
+	eachInstr(fn, func(in ssa.Instruction) {
+		ci, ok := in.(ssa.CallInstruction)
+		if !ok {
+			return
+		}
+		if _, isDefer := in.(*ssa.Defer); isDefer {
+			return
+		}
+		f := calleeFunc(ci.Common())
+		if funcIs(f, pkgBS, "ReadWrite", "Put") || funcIs(f, pkgBS, "ReadWrite", "PutMany") {
+			out[in.Block()] = true
+			return
+		}
+		for _, callee := range c.Callees(ci) {
+			if callee.Pkg == fn.Pkg && callsPut(c, callee, 0) {
+				out[in.Block()] = true
+			}
+		}
+		if mc, ok := canon(ci.Common().Value).(*ssa.MakeClosure); ok {
+			if callsPut(c, mc.Fn.(*ssa.Function), 0) {
+				out[in.Block()] = true
+			}
+		}
+	})
+	return out
+}
+
+func successReturnsAvoiding(fn *ssa.Function, blocks map[*ssa.BasicBlock]bool) []*ssa.Return {
+	cut := EdgeSet{}
+	for _, b := range fn.Blocks {
+		for i, sc := range b.Succs {
+			if blocks[sc] {
+				cut[Edge{From: b, Succ: i}] = true
+			}
+		}
+	}
+	var out []*ssa.Return
+	if blocks[fn.Blocks[0]] {
+		return nil
+	}
+	rs := reach(fn, nil, cut)
+	for _, ret := range returnsOf(fn) {
+		if !rs[ret.Block()] || len(ret.Results) == 0 {
+			continue
+		}
+		last := len(ret.Results) - 1
+		if _, isErr := ret.Results[last].Type().Underlying().(*types.Interface); !isErr {
+			continue
+		}
+		if resultIsNilConst(ret, last) {
+			out = append(out, ret)
+		}
+	}
+	return out
+}
+
+func ruleR18g(c *Ctx, r *Report) {
+	fn, err := c.Func(pkgCmdCar, "", "writeFiles")
+	if err != nil {
+		r.InfraFail("%v", err)
+		return
+	}
+	key := "commit-reaches-store@" + fnKey(fn)
+	// the committer: an anonymous function (any depth) that takes an ipld.Link and returns error
+	var committers []*ssa.Function
+	cands := withAnon(fn)
+	// closures that a clean-up turned into methods of a small helper type live elsewhere in the package
+	for _, g := range c.RepoFuncs() {
+		if g.Pkg == fn.Pkg && g.Parent() != nil && g.Parent() != fn && !baselineFuncs[ssaDeclKey(rootFunc(g))] {
+			cands = append(cands, g)
+		}
+	}
+	for _, g := range cands {
+		sig := g.Signature
+		if g == fn || sig.Params().Len() != 1 || sig.Results().Len() != 1 {
+			continue
+		}
+		if n := namedOf(sig.Params().At(0).Type()); n != nil && n.Obj().Name() == "Link" {
+			committers = append(committers, g)
+		}
+	}
+	if len(committers) == 0 {
+		r.Undec(key, c.Pos(fn.Pos()), "block-write committer closure not found")
+		return
+	}
+	deferred := ""
+	for _, g := range committers {
+		for _, ret := range successReturnsAvoiding(g, putCallBlocks(c, g)) {
+			deferred = c.Pos(ret.Pos())
+		}
+	}
+	if deferred == "" {
+		r.Hold(key, c.Pos(fn.Pos()), "the committer puts the block on every success path")
+		return
+	}
+	leaks := successReturnsAvoiding(fn, putCallBlocks(c, fn))
+	bad := ""
+	for _, ret := range leaks {
+		bad = fmt.Sprintf("the committer can succeed without putting the block (return at %s), and writeFiles can return success at %s without a flush that puts what was held back: committed blocks — the root among them — are missing from the archive", deferred, c.Pos(ret.Pos()))
+	}
+	r.Check(bad == "", key, c.Pos(fn.Pos()), "blocks held back by the committer are flushed on every success return", bad)
+}
+
+func ruleR18h(c *Ctx, r *Report) {
+	fn, err := c.Func(pkgCmdLib, "", "extractDir")
+	if err != nil {
+		r.InfraFail("%v", err)
+		return
+	}
+	n := 0
+	for _, g := range withAnon(fn) {
+		if g == fn || len(g.Params) == 0 {
+			continue
+		}
+		if bt, ok := g.Params[0].Type().Underlying().(*types.Basic); !ok || bt.Kind() != types.String {
+			continue
+		}
+		if len(callsToFunc(g, pkgCmdLib, "", "resolvePath")) == 0 {
+			continue
+		}
+		n++
+		name := g.Params[0]
+		key := "name-judged-by-sanitiser@" + fnKey(g)
+		bad := ""
+		for _, b := range g.Blocks {
+			if len(b.Instrs) == 0 {
+				continue
+			}
+			iff, ok := b.Instrs[len(b.Instrs)-1].(*ssa.If)
+			if !ok {
+				continue
+			}
+			if dependsOnExcept(iff.Cond, name, func(f *types.Func) bool { return funcIs(f, pkgCmdLib, "", "resolvePath") }) {
+				bad = fmt.Sprintf("the branch at %s depends on the entry name without going through resolvePath: an entry is accepted or refused by a rule of its own (ordinary names such as `a..b` stop round-tripping)", c.Pos(iff.Cond.Pos()))
+			}
+		}
+		r.Check(bad == "", key, c.Pos(g.Pos()), "no branch depends on the entry name except through resolvePath", bad)
+	}
+	if n == 0 {
+		r.Undec("name-judged-by-sanitiser@"+fnKey(fn), c.Pos(fn.Pos()), "per-entry closure not found")
+	}
+}
+
+// dependsOnExcept: v is computed from src through operands, not counting what passes through calls accepted by stop.
+func dependsOnExcept(v ssa.Value, src ssa.Value, stop func(*types.Func) bool) bool {
+	seen := map[ssa.Value]bool{}
+	var walk func(v ssa.Value, d int) bool
+	walk = func(v ssa.Value, d int) bool {
+		if v == nil || seen[v] || d > 10 {
+			return false
+		}
+		seen[v] = true
+		if v == src {
+			return true
+		}
+		if cl, ok := v.(*ssa.Call); ok {
+			if stop(calleeFunc(cl.Common())) {
+				return false
+			}
+		}
+		if ex, ok := v.(*ssa.Extract); ok {
+			return walk(ex.Tuple, d+1)
+		}
+		if in, ok := v.(ssa.Instruction); ok {
+			for _, op := range in.Operands(nil) {
+				if *op != nil && walk(*op, d+1) {
+					return true
+				}
+			}
+		}
+		return false
+	}
+	return walk(v, 0)
+}
+
+func ruleR18i(c *Ctx, r *Report) {
+	fn, err := c.Func(pkgCmdLib, "", "extractFile")
+	if err != nil {
+		r.InfraFail("%v", err)
+		return
+	}
+	key := "copy-destination@" + fnKey(fn)
+	cps := callsToFunc(fn, "io", "", "Copy")
+	if len(cps) == 0 {
+		r.Undec(key, c.Pos(fn.Pos()), "io.Copy not found")
+		return
+	}
+	bad := ""
+	for _, cp := range cps {
+		for _, o := range origins(cp.Common().Args[0], originOpts{}) {
+			switch {
+			case o.Kind == "call" && funcIs(o.Fn, "os", "", "Create"), o.Kind == "call" && funcIs(o.Fn, "os", "", "OpenFile"):
+			case o.Kind == "global":
+			case o.Kind == "const":
+			default:
+				// a repository writer: its Write must forward
+				t := o.Val.Type()
+				if al, ok := o.Val.(*ssa.Alloc); ok {
+					t = al.Type().Underlying().(*types.Pointer).Elem()
+				}
+				nt := namedOf(t)
+				if nt == nil || nt.Obj().Pkg() == nil || !strings.HasPrefix(nt.Obj().Pkg().Path(), modCmd) {
+					bad = fmt.Sprintf("the copy destination comes from %s (%s), not from the created file", o.Kind, t)
+					continue
+				}
+				w, err := c.Func(nt.Obj().Pkg().Path(), nt.Obj().Name(), "Write")
+				if err != nil {
+					bad = "the copy destination is a repository type without a resolvable Write"
+					continue
+				}
+				for _, ret := range returnsOf(w) {
+					for _, oo := range origins(ret.Results[0], originOpts{binops: true}) {
+						if oo.Kind == "const" {
+							continue
+						}
+						if oo.Kind == "call" && oo.Fn != nil && (oo.Fn.Name() == "Write" || oo.Fn.Name() == "WriteAt" || oo.Fn.Name() == "WriteString") {
+							continue
+						}
+						bad = fmt.Sprintf("%s.Write can report bytes as written (return at %s) that no underlying Write produced: content is skipped, and a file ending in such bytes comes out short", nt.Obj().Name(), c.Pos(ret.Pos()))
+					}
+				}
+			}
+		}
+	}
+	r.Check(bad == "", key, c.Pos(cps[0].Pos()), "content copied into the created file / stdout", bad)
+}
+
+func rootFunc(f *ssa.Function) *ssa.Function {
+	for f.Parent() != nil {
+		f = f.Parent()
+	}
+	return f
+}
+
+// ssaDeclKey: the baseline-table key of a declared function.
+func ssaDeclKey(f *ssa.Function) string {
+	o, ok := f.Object().(*types.Func)
+	if !ok || o.Pkg() == nil {
+		return ""
+	}
+	_, rn := recvTypeName(o)
+	return o.Pkg().Path() + "\t" + rn + "\t" + o.Name()
 }
